@@ -1,7 +1,8 @@
 ----------------------------- MODULE Gen_Corrupt -----------------------------
 (* Case generator for C04 (binding C): every abstract case of the taxonomy with the outcome classes the   *)
 (* spec's reader allows for it (the oracle) and whether the as-built reader may allocate out of          *)
-(* proportion on it.  Run with Dev = {"ForgedSizeAlloc"} and -workers 1; one JSON line per case.          *)
+(* proportion on it (CostWith the deviation, whatever Dev is).  Run with -workers 1; one JSON line per    *)
+(* case.  With Dev = {} the same run also checks the invariants of the strict spec.                      *)
 EXTENDS Corrupt, Json
-ExportCase == result = "unread" => PrintT(ToJson([c |-> case, allowed |-> Read(case), huge |-> "huge" \in Cost(case)]))
+ExportCase == result = "unread" => PrintT(ToJson([c |-> case, allowed |-> Read(case), huge |-> "huge" \in CostWith({"ForgedSizeAlloc"}, case)]))
 =============================================================================
